@@ -314,6 +314,7 @@ static int armed, yielded;
 static uint32_t site, cnt;
 extern "C" void symx_yield(void) {
     if (symx_tid != 0 || !armed) return;
+    if (cnt < SITE_LO) { cnt++; return; }      /* decided without the solver: the counter is concrete, only `site` may be symbolic */
     if (cnt++ != site) return;
     yielded = 1;
     symx_tid = 1; run_job(jobB, OPB); symx_tid = 0;      /* thread B runs its whole call here */
